@@ -598,6 +598,18 @@ func (fv *FV) ratModel(st *State, call *ast.CallExpr, name string, sel *ast.Sele
 		wb(r)
 		pso := fv.ss.Of(fv.info.TypeOf(call))
 		return []Term{ptrMk(pso, r)}
+	case "SetInt", "SetInt64", "SetUint64":
+		_, wb := fv.ratRecv(st, sel.X)
+		var a Term
+		if name == "SetInt" {
+			a = fv.bigArg(st, call.Args[0])
+		} else {
+			a = fv.evalExpr(st, call.Args[0])
+		}
+		r := Term{sx("mk_Rat", a.S, "1"), SRat}
+		wb(r)
+		pso := fv.ss.Of(fv.info.TypeOf(call))
+		return []Term{ptrMk(pso, r)}
 	case "SetFrac", "SetFrac64":
 		// z.SetFrac(a, b) sets z to a/b and panics on b == 0
 		_, wb := fv.ratRecv(st, sel.X)
